@@ -52,7 +52,8 @@ WIRES = {
             ("C17-HEAD-UNUSED-AFTER-SUCCESS", 'wave2_nio.no_reissue_while_head_wrong_rule(run, f, "C17-HEAD-UNUSED-AFTER-SUCCESS")'),
             ("C17-OFFSET-PER-ELEMENT", 'wave2_nio.offset_per_element_rule(run, f, "C17-OFFSET-PER-ELEMENT")')],
     "C18": [("C18-MODE-WRITERS", 'wave3.mode_writers_rule(run, f, "C18-MODE-WRITERS")')],
-    "C19": [("C19-WRITERS", 'wave3.limit_writers_rule(run, f, "C19-WRITERS")')],
+    "C19": [("C19-WRITERS", 'wave3.limit_writers_rule(run, f, "C19-WRITERS")'),
+            ("C19-FILL-OPTION", 'wave3.fill_option_rule(run, f, "C19-FILL-OPTION")')],
     "C21": [("C21-INNER-REACHES-OS", 'wave3.inner_reaches_os_rule(run, f, "C21-INNER-REACHES-OS")')],
     "C20": [("C20-POLL-EVERY-ROUND", 'wave2.poll_every_round_rule(run, f, "C20-POLL-EVERY-ROUND")'),
             ("C20-FRESH-EVENTS", 'wave3.fresh_events_rule(run, f, "C20-FRESH-EVENTS")')],
